@@ -6,10 +6,12 @@ import (
 	"errors"
 	"fmt"
 	"io"
+	"net"
 	"net/http"
 	"net/http/httptest"
 	"os"
 	"strings"
+	"sync"
 	"testing"
 
 	"github.com/Query-farm/vgi-rpc-go/vgirpc"
@@ -26,6 +28,11 @@ type c21Fault struct {
 	Kind string `json:"kind"` // pass | err_before | err_after | truncate | flip | status | coding_unknown | coding_lie | strip_cursor | schema_drift | trailing | oversize
 	N    int    `json:"n,omitempty"`
 	Code int    `json:"code,omitempty"`
+	// real-wire cases only: Close = the response to this request says "Connection: close", so the next request
+	// travels on a fresh connection instead of the reused keep-alive one; Reset = a dropped connection is reset
+	// (RST) rather than closed (FIN).
+	Close bool `json:"close,omitempty"`
+	Reset bool `json:"reset,omitempty"`
 }
 
 type c21Case struct {
@@ -35,6 +42,13 @@ type c21Case struct {
 	Faults   []c21Fault       `json:"faults"` // per HTTP request, in order
 	Limit    int              `json:"limit"`
 	MaxDec   int64            `json:"max_decoded"`
+	// Real: the client talks through a real net/http transport and TCP connections to a front end that applies the
+	// fault script on the wire (err_before / err_after = the peer closes the connection after receiving the request,
+	// before / after the worker handled it, without sending a response byte). Otherwise the faults are applied by a
+	// RoundTripper injected into the client. DefaultClient: the client's own default http.Client (shared pooled
+	// transport) instead of an injected one with its own http.Transport.
+	Real          bool `json:"real,omitempty"`
+	DefaultClient bool `json:"default_client,omitempty"`
 }
 
 var mustFail = map[string]bool{"err_before": true, "err_after": true, "status": true, "coding_unknown": true, "coding_lie": true,
@@ -58,10 +72,22 @@ func genC21(t *rapid.T) c21Case {
 	}
 	c.Script = s
 	kinds := []string{"pass", "pass", "pass", "pass", "pass", "err_before", "err_after", "truncate", "cut", "cut_boundary", "cut_boundary", "flip", "status", "coding_unknown", "coding_lie", "strip_cursor", "schema_drift", "trailing", "oversize"}
+	c.Real = rapid.IntRange(0, 3).Draw(t, "real") == 0
+	codes := []int{400, 401, 404, 413, 500, 502, 503, 301, 199}
+	if c.Real {
+		c.DefaultClient = rapid.Bool().Draw(t, "defaultclient")
+		// on the wire the connection-level faults are the ones an injected RoundTripper cannot produce
+		kinds = append(kinds, "pass", "pass", "pass", "err_after", "err_after", "err_after", "err_before")
+		codes = codes[:len(codes)-1] // a real server cannot answer with a final 1xx status
+	}
 	for i := 0; i < n+2; i++ {
 		f := c21Fault{Kind: kinds[rapid.IntRange(0, len(kinds)-1).Draw(t, "fault")]}
 		f.N = rapid.IntRange(0, 1<<16).Draw(t, "fn")
-		f.Code = []int{400, 401, 404, 413, 500, 502, 503, 301, 199}[rapid.IntRange(0, 8).Draw(t, "code")]
+		f.Code = codes[rapid.IntRange(0, len(codes)-1).Draw(t, "code")]
+		if c.Real {
+			f.Close = rapid.IntRange(0, 3).Draw(t, "fclose") == 0
+			f.Reset = rapid.Bool().Draw(t, "freset")
+		}
 		c.Faults = append(c.Faults, f)
 	}
 	return c
@@ -75,25 +101,97 @@ func (e errReader) Read([]byte) (int, error) { return 0, e.err }
 type recReq struct {
 	Path   string
 	Cursor string
+	Reused bool // real wire: the request arrived on a connection that had carried an earlier request
 }
 
 type faultTransport struct {
 	h      http.Handler
 	faults []c21Fault
-	reqs   []recReq
 	maxDec int64
+	mu     sync.Mutex // the front end of a real-wire case runs on the HTTP server's goroutines
+	reqs   []recReq
+	conns  map[string]bool // real wire: remote addresses seen
+}
+
+// fault returns the fault that applies to request i (after downgrades).
+func (ft *faultTransport) fault(i int) c21Fault {
+	ft.mu.Lock()
+	defer ft.mu.Unlock()
+	if i < len(ft.faults) {
+		return ft.faults[i]
+	}
+	return c21Fault{Kind: "pass"}
+}
+
+// seen returns how many requests have reached the fault layer so far.
+func (ft *faultTransport) seen() int {
+	ft.mu.Lock()
+	defer ft.mu.Unlock()
+	return len(ft.reqs)
+}
+
+func (ft *faultTransport) requests() []recReq {
+	ft.mu.Lock()
+	defer ft.mu.Unlock()
+	return append([]recReq{}, ft.reqs...)
+}
+
+// ServeHTTP is the real-wire front end: it applies the same fault script to requests that arrived over a TCP
+// connection from a real net/http transport. Where the injected RoundTripper returns an error, the front end closes
+// (or resets) the connection without having written a single response byte; a body cut short of its declared length
+// is flushed as far as it goes and the connection is then dropped.
+func (ft *faultTransport) ServeHTTP(w http.ResponseWriter, r *http.Request) {
+	ft.mu.Lock()
+	i := len(ft.reqs)
+	if ft.conns == nil {
+		ft.conns = map[string]bool{}
+	}
+	reused := ft.conns[r.RemoteAddr]
+	ft.conns[r.RemoteAddr] = true
+	ft.mu.Unlock()
+	f := ft.fault(i)
+	res, err := ft.RoundTrip(r)
+	ft.mu.Lock()
+	if i < len(ft.reqs) {
+		ft.reqs[i].Reused = reused
+	}
+	ft.mu.Unlock()
+	if err != nil {
+		conn, _, herr := w.(http.Hijacker).Hijack()
+		if herr != nil {
+			panic(http.ErrAbortHandler)
+		}
+		if tc, ok := conn.(*net.TCPConn); ok && f.Reset {
+			_ = tc.SetLinger(0)
+		}
+		_ = conn.Close()
+		return
+	}
+	h := w.Header()
+	for k, v := range res.Header {
+		h[k] = v
+	}
+	if f.Close {
+		h.Set("Connection", "close")
+	}
+	w.WriteHeader(res.StatusCode)
+	if _, err := io.Copy(w, res.Body); err != nil {
+		w.(http.Flusher).Flush()
+		panic(http.ErrAbortHandler)
+	}
 }
 
 // downgrade records that fault i could not be applied to the response it met
 // (nothing to cut): the request counts as unfaulted.
 func (ft *faultTransport) downgrade(i int) {
+	ft.mu.Lock()
+	defer ft.mu.Unlock()
 	if i < len(ft.faults) {
 		ft.faults[i].Kind = "pass"
 	}
 }
 
 func (ft *faultTransport) RoundTrip(r *http.Request) (*http.Response, error) {
-	i := len(ft.reqs)
 	body, _ := io.ReadAll(r.Body)
 	rr := recReq{Path: r.URL.Path}
 	if ss, err := lib.SplitStreams(body); err == nil {
@@ -105,11 +203,11 @@ func (ft *faultTransport) RoundTrip(r *http.Request) (*http.Response, error) {
 			}
 		}
 	}
+	ft.mu.Lock()
+	i := len(ft.reqs)
 	ft.reqs = append(ft.reqs, rr)
-	f := c21Fault{Kind: "pass"}
-	if i < len(ft.faults) {
-		f = ft.faults[i]
-	}
+	ft.mu.Unlock()
+	f := ft.fault(i)
 	if f.Kind == "err_before" {
 		return nil, errors.New("injected: connection refused")
 	}
@@ -315,9 +413,41 @@ func runC21(c c21Case) (out lib.Outcome) {
 			refItems = append(refItems, it)
 		}
 	}
-	ft := &faultTransport{h: newServerFor(c), faults: c.Faults, maxDec: c.MaxDec}
-	client, err := vgirpc.NewHttpClient("http://client.test", vgirpc.WithClientHTTPClient(&http.Client{Transport: ft}),
-		vgirpc.WithClientResponseLimits(c.MaxDec, c.MaxDec))
+	ft := &faultTransport{h: newServerFor(c), faults: append([]c21Fault{}, c.Faults...), maxDec: c.MaxDec}
+	base, opts := "http://client.test", []vgirpc.HttpClientOption{vgirpc.WithClientResponseLimits(c.MaxDec, c.MaxDec)}
+	if c.Real {
+		// the client's real transport <-> TCP <-> front end applying the fault script <-> worker
+		out.Label("transport:real")
+		front := httptest.NewServer(ft)
+		defer front.Close()
+		base = front.URL
+		if c.DefaultClient {
+			out.Label("transport:real:default-client")
+		} else {
+			tr := &http.Transport{}
+			defer tr.CloseIdleConnections()
+			opts = append(opts, vgirpc.WithClientHTTPClient(&http.Client{Transport: tr}))
+		}
+	} else {
+		opts = append(opts, vgirpc.WithClientHTTPClient(&http.Client{Transport: ft}))
+	}
+	// noReplay: no cursor value reaches the fault layer (i.e. leaves the client) in two /exchange requests — whoever
+	// resends it, the client's own code or the HTTP transport underneath it
+	noReplay := func() bool {
+		ok := true
+		seen := map[string]int{}
+		for i, r := range ft.requests() {
+			if strings.HasSuffix(r.Path, "/exchange") && r.Cursor != "" {
+				if j, dup := seen[r.Cursor]; dup {
+					out.Violate("C21/cursor-replayed", "requests %d and %d carry the same cursor (real wire: %v; fault on request %d: %s, on request %d: %s)", j, i, c.Real, j, ft.fault(j).Kind, i, ft.fault(i).Kind)
+					ok = false
+				}
+				seen[r.Cursor] = i
+			}
+		}
+		return ok
+	}
+	client, err := vgirpc.NewHttpClient(base, opts...)
 	if err != nil {
 		out.Violate("C21/harness-client", "%v", err)
 		return
@@ -325,12 +455,7 @@ func runC21(c c21Case) (out lib.Outcome) {
 	defer client.Close()
 	ctx := context.Background()
 	params := lib.ScriptBatch(c.Script.JSON())
-	faultAt := func(i int) c21Fault {
-		if i < len(c.Faults) {
-			return c.Faults[i]
-		}
-		return c21Fault{Kind: "pass"}
-	}
+	faultAt := ft.fault
 	checkBatch := func(i int, b *vgirpc.ClientBatch) {
 		if i >= len(refItems) || refItems[i].Kind != "data" {
 			out.Violate("C21/extra-batch", "client returned data batch %d but the server's stream has %d items", i, len(refItems))
@@ -371,10 +496,10 @@ func runC21(c c21Case) (out lib.Outcome) {
 		dead := false
 		got := 0
 		for i, v := range c.Inputs {
-			before := len(ft.reqs)
+			before := ft.seen()
 			f := faultAt(before)
 			b, err := stream.Exchange(ctx, lib.Int64Batch(lib.InSchema, v))
-			sent := len(ft.reqs) - before
+			sent := ft.seen() - before
 			if dead {
 				if err == nil {
 					out.Violate("C21/turn-after-dead-stream", "turn %d succeeded on a stream that had ended or become ambiguous", i)
@@ -387,7 +512,9 @@ func runC21(c c21Case) (out lib.Outcome) {
 				continue
 			}
 			if sent != 1 {
-				out.Violate("C21/requests-per-turn", "turn %d sent %d requests", i, sent)
+				if noReplay() {
+					out.Violate("C21/requests-per-turn", "turn %d sent %d requests", i, sent)
+				}
 				return
 			}
 			if f.Kind != "pass" {
@@ -395,6 +522,14 @@ func runC21(c c21Case) (out lib.Outcome) {
 				out.Label("fault:" + f.Kind)
 				if i >= 1 {
 					out.Label("fault-at-turn>=2")
+				}
+				if c.Real && (f.Kind == "err_after" || f.Kind == "err_before") {
+					// the peer dropped the connection after receiving the request and before any response byte
+					how := map[bool]string{true: "reused-conn", false: "fresh-conn"}[ft.requests()[before].Reused]
+					out.Label("real:" + f.Kind + ":" + how)
+					if f.Reset {
+						out.Label("real:drop-by-reset")
+					}
 				}
 			}
 			if err != nil {
@@ -426,15 +561,7 @@ func runC21(c c21Case) (out lib.Outcome) {
 			b.Release()
 		}
 		// no cursor is ever sent twice
-		seen := map[string]int{}
-		for i, r := range ft.reqs {
-			if strings.HasSuffix(r.Path, "/exchange") && r.Cursor != "" {
-				if j, dup := seen[r.Cursor]; dup {
-					out.Violate("C21/cursor-replayed", "requests %d and %d carry the same cursor", j, i)
-				}
-				seen[r.Cursor] = i
-			}
-		}
+		noReplay()
 	} else {
 		stream, err := client.OpenProducer(ctx, method, params, vgirpc.ClientStreamSchema{Output: lib.OutSchema})
 		f0 := faultAt(0)
@@ -459,9 +586,9 @@ func runC21(c c21Case) (out lib.Outcome) {
 			anyFault = true
 		}
 		for got < 100 {
-			before := len(ft.reqs)
+			before := ft.seen()
 			b, ok, err := stream.Next(ctx)
-			for j := before; j < len(ft.reqs); j++ {
+			for j := before; j < ft.seen(); j++ {
 				if fk := faultAt(j).Kind; fk != "pass" {
 					clean = false
 					anyFault = true
@@ -507,10 +634,12 @@ var propC21 = lib.Prop[c21Case]{
 	ID:    "C21",
 	Level: "fault_enumeration",
 	Rule: "producer and exchange histories of 1-8 turns (0-3 rows per batch, per-emit metadata, server-side turn errors) driven through vgirpc.HttpClient against a real HttpServer behind a generated RoundTripper fault script: per request one of pass, error before send, error after the server handled it, truncate at k, connection dropped mid-body at k or exactly between two IPC messages of an identity-coded body, flip a byte, status 4xx/5xx/3xx/1xx, unknown coding, lying coding, cursor stripped, schema drift, trailing bytes, body inflated past the client's cap. " +
-		"Oracle: un-faulted responses give exactly the reference batches (my own client against an identical server) with tokens removed and user metadata kept; server exceptions surface as *RpcError of the server's type; must-fail faults are errors; after any failed exchange turn every later turn errors without a request; no cursor value occurs in two /exchange requests. Non-trivial: at least one fault was exercised.",
+		"A quarter of the cases run over the real wire instead: the client (its default http.Client, or an injected one with its own http.Transport) talks TCP to a front end that applies the same script, where 'error before/after' means the peer closes or resets the connection after receiving the request (before / after the worker handled it) without sending a response byte, on a reused keep-alive connection or — when the previous response said Connection: close — on a fresh one. " +
+		"Oracle: un-faulted responses give exactly the reference batches (my own client against an identical server) with tokens removed and user metadata kept; server exceptions surface as *RpcError of the server's type; must-fail faults are errors; after any failed exchange turn every later turn errors without a request; no cursor value occurs in two /exchange requests as counted where the requests arrive (so a resend by the HTTP transport underneath the client counts as well). Non-trivial: at least one fault was exercised.",
 	Gen:          genC21,
 	Run:          runC21,
-	Essential:    []string{"kind:exchange", "kind:producer", "zero-row-batch:producer", "zero-row-batch:exchange", "fault-at-turn>=2", "server-error", "fault:strip_cursor", "fault:err_after", "fault:oversize", "fault:cut_boundary"},
+	Essential:    []string{"kind:exchange", "kind:producer", "zero-row-batch:producer", "zero-row-batch:exchange", "fault-at-turn>=2", "server-error", "fault:strip_cursor", "fault:err_after", "fault:oversize", "fault:cut_boundary",
+		"transport:real", "transport:real:default-client", "real:err_after:reused-conn", "real:err_before:reused-conn", "real:drop-by-reset"},
 	EssentialMin: 300,
 	Assumptions:  []string{"a corrupted-but-parseable body (truncate/flip) may legitimately succeed: the client has no checksum", "the no-replay clause is asserted for exchange streams, as the statement words it"},
 }
